@@ -89,7 +89,7 @@ theorem tps_not_dotted {g : GCtx} (hg : GOK g) {n : String} {a b : String} {l : 
 theorem good_any {g : GCtx} (hg : GOK g) (ip : Bool) : TyGood g ip .any := by
   refine ⟨by simp [normTy], by simp [normTy], ?_⟩
   intro d henv
-  refine ⟨.named "typing.Any", ?_, ?_⟩
+  refine ⟨.named "typing.Any", ?_, ?_, headOK_typing (n := "typing.Any") (x := "Any") (by decide) (by decide) (by decide) (by decide) (by decide) (by decide) rfl⟩
   · have : tyExpr ip .any = .name "Any" := by simp [tyExpr]
     rw [this, parseTy_name]
     apply newType_bare
@@ -102,7 +102,7 @@ theorem good_any {g : GCtx} (hg : GOK g) (ip : Bool) : TyGood g ip .any := by
 theorem good_nothing (g : GCtx) (ip : Bool) : TyGood g ip .nothing := by
   refine ⟨by simp [normTy], by simp [normTy], ?_⟩
   intro d _
-  refine ⟨.nothing, ?_, by simp [postTy, normTy]⟩
+  refine ⟨.nothing, ?_, by simp [postTy, normTy], headOK_empty rfl⟩
   have : tyExpr ip .nothing = .name "nothing" := by simp [tyExpr]
   rw [this, parseTy_name]
   unfold newType resolveType
@@ -142,7 +142,7 @@ theorem good_literal {g : GCtx} (hg : GOK g) (ip : Bool) (v : Lit) (hf : fTy g i
     rw [special_of_single henv (by decide) (adds_not_alias hg hLit)]; rfl
   have hres : resolveType d "Literal" = .named "typing.Literal" := by
     rw [resolveType_imp henv (by simp [tyAdds]) (by decide)]; rfl
-  refine ⟨.literal v, ?_, by simp [postTy, normTy]⟩
+  refine ⟨.literal v, ?_, by simp [postTy, normTy], headOK_empty rfl⟩
   have hargs : parseLitArgs d [litExpr v] = .ok [.lit v] := by
     cases v with
     | int n => simp [litExpr, parseLitArgs]; rfl
